@@ -416,6 +416,20 @@ def _o_batch_at_most_one_coeff(w):
     return len(passing) <= limit, f"bad member {j} ({w['how']}), coefficients that pass: {passing} of {ec.n - 1}"
 
 
+def _o_batch_cancelling_pair(w):
+    """secp256k1: two tampered members whose defects cancel (s_i + 1, s_j - 1) — the attack the random
+    coefficients exist to stop: the batch must be False (it would pass iff a_i == a_j, probability 2^-256)."""
+    with backend(w.get("lib", False)):
+        ec, hf, items = _mk_batch(w)
+        i, j = w["pair"]
+        m, x, r, sv = items[i]
+        items[i] = (m, x, r, (sv + 1) % ec.n)
+        m, x, r, sv = items[j]
+        items[j] = (m, x, r, (sv - 1) % ec.n)
+        ok = ssa.batch_verify_([t[0] for t in items], [t[1] for t in items], [_sig(t[2], t[3], ec) for t in items], hf)
+    return ok is False, f"batch={ok} size={len(items)} cancelling pair at {i},{j}"
+
+
 def _o_codec(w):
     r, s = w["r"], w["s"]
     try:
@@ -505,6 +519,7 @@ ORACLES = {
     "batch.all_valid": _o_batch_all_valid,
     "batch.one_tampered": _o_batch_one_tampered,
     "batch.at_most_one_coeff": _o_batch_at_most_one_coeff,
+    "batch.cancelling_pair": _o_batch_cancelling_pair,
     "codec.roundtrip": _o_codec,
     "codec.canonical": _o_parse_canonical,
     "s2c.opens": _o_s2c,
@@ -806,6 +821,11 @@ def _run(ctx, rng, thorough):  # noqa: C901, PLR0912, PLR0915
                 rng.shuffle(order)
                 ctx.check("batch.all_valid", {"curve": K1, "hf": "sha256", "members": members, "lib": lib,
                                               "order": order + [rng.randrange(size)]})
+                if size >= 2:
+                    pr = sorted(rng.sample(range(size), 2))
+                    for pair in ([0, 1], pr):
+                        ctx.check("batch.cancelling_pair", {"curve": K1, "hf": "sha256", "members": members, "lib": lib,
+                                                            "pair": pair})
                 for pos in (range(size) if size <= 8 else [0, 27, size - 1]):
                     ctx.check("batch.one_tampered", {"curve": K1, "hf": "sha256", "members": members, "lib": lib,
                                                      "pos": pos, "how": rng.choice(["s", "msg", "r", "x", "s+n", "negs"])})
@@ -883,6 +903,28 @@ def _run(ctx, rng, thorough):  # noqa: C901, PLR0912, PLR0915
                     bl.append(_bline(tok, "sha256", cs, items))
                     if pos == 0:
                         break
+        # two bad members: the batch passes for exactly the coefficients solving a_i·D_i + a_j·D_j = 0 — model and code
+        # must agree line by line, which pins down WHICH coefficient multiplies WHICH member
+        for tok, ec in prime[:: (1 if thorough else 3)]:
+            for _ in range(ctx.n(2, 10)):
+                size = rng.choice([2, 3, 5])
+                members = [[_rb(rng, rng.choice([0, 5, 32])).hex(), rng.randrange(1, ec.n), _aux(rng, 32).hex()] for _ in range(size)]
+                try:
+                    ec_, hf_, items = _mk_batch({"curve": tok, "hf": "sha256", "members": members})
+                except Exception:  # noqa: BLE001
+                    continue
+                i, j = sorted(rng.sample(range(size), 2))
+                items[i] = _tamper(items[i], "s", ec_)
+                items[j] = _tamper(items[j], rng.choice(["s", "negs", "msg"]), ec_)
+                coefs = [rng.randrange(1, ec.n) for _ in range(size - 1)]
+                passing = 0
+                for a in range(1, ec.n):
+                    cs = list(coefs)
+                    cs[j - 1] = a
+                    line = _bline(tok, "sha256", cs, items)
+                    bl.append(line)
+                    passing += impl(line) == "ok"
+                ctx.count("ssa.batch.toy#two-bad", f"{passing} of {ec.n - 1} coefficients pass")
         ctx.stream("ssa.batch.toy", bl)
         s2 = [], []
         for tok, ec in prime[:: (1 if thorough else 3)]:
